@@ -19,6 +19,7 @@ EN == INSTANCE Entries
 CO == INSTANCE Consts
 CP == INSTANCE Compile
 WR == INSTANCE WgpuRules
+OUT == INSTANCE Output
 
 Rec == ndJsonDeserialize(IOEnv.TRACE)
 Enforce == IOEnv.ENFORCE
@@ -626,6 +627,48 @@ CONF(c, o) ==
                \cup Chk(o.work[1] = model.walks /\ o.work[3] = TC!RunClosure(S, TRUE).work, "DRIFT work counters " \o ToJson(o.work) \o " vs model walks " \o Str(model.walks))
              ELSE {}) ]
 
+(* ------------------------------------------------------------------ the whole output against Output.tla (DRIFT, not a property) *)
+ObsField(f) == [ name |-> f.name, flat |-> f.flat, attrs |-> f.attrs ]
+ObsStruct(st) == [ name |-> st.name, derives |-> st.derives, repr_c |-> st.repr_c, fields |-> [ i \in DOMAIN st.fields |-> ObsField(st.fields[i]) ], n_asserts |-> Len(st.asserts) ]
+ObsEntryTy(t) ==
+  CASE t.k = "buffer" -> IF t.bty = "uniform" THEN [ k |-> "buffer", bty |-> "uniform" ] ELSE [ k |-> "buffer", bty |-> t.bty, ro |-> t.ro ]
+    [] t.k = "texture" -> [ k |-> "texture", sample |-> t.sample, dim |-> t.dim, multi |-> t.multi ]
+    [] t.k = "storage_texture" -> [ k |-> "storage_texture", access |-> t.access, format |-> t.format, dim |-> t.dim ]
+    [] t.k = "sampler" -> [ k |-> "sampler", ty |-> t.ty ]
+    [] OTHER -> t
+LabelOf(v) == IF Has(v, "args") /\ Len(v.args) = 1 /\ Has(v.args[1], "$str") THEN v.args[1]["$str"] ELSE "?"
+ObsGroup(G) ==
+  [ no |-> G.no,
+    fields |-> [ i \in DOMAIN G.fields |-> [ name |-> G.fields[i].name, kind |-> G.fields[i].kind ] ],
+    entries |-> [ i \in DOMAIN G.entries |-> [ binding |-> G.entries[i].binding, vis |-> Range(G.entries[i].vis), ty |-> ObsEntryTy(G.entries[i].ty) ] ],
+    layout_label |-> LabelOf(G.label), group_label |-> LabelOf(G.from_bindings.label), set_index |-> G.set.index ]
+BufferDefaultsOk(G) == \A e \in Range(G.entries) : e.count = "None" /\ (e.ty.k = "buffer" => (e.ty.dyn = FALSE /\ e.ty.min = "None"))
+WholeOut(c, o) ==
+  IF ~(HasS(c) /\ ValidAll(o) /\ Projected(o)) THEN NoVerdict ELSE
+  LET S == c.S
+      opts == c.opts
+      constNames == LET ex == SelectSeq(o.oracle.consts, LAMBDA k : k \in CO!Exported(o.oracle.consts)) IN [ i \in DOMAIN ex |-> ex[i].name ]
+      es == OUT!EmittedStructs(S)
+      order == RUN!GroupOrder(S)
+  IN [ dom |-> TRUE, fails |->
+       Chk(OUT!ItemsOk(S, opts, constNames, o.out.items), "DRIFT items " \o ToJson(o.out.items) \o " differ from the sections of Output.tla (before: " \o ToJson(OUT!ExpectedItemsBefore(S, opts, constNames)) \o ", after: " \o ToJson(OUT!ExpectedItemsAfter(S)) \o ")")
+       \cup Chk(Len(o.out.structs) = Len(es), "DRIFT number of structs")
+       \cup (IF Len(o.out.structs) = Len(es) THEN
+               UNION { Chk(ObsStruct(o.out.structs[i]) = OUT!ExpectedStruct(S, es[i].name, opts),
+                           "DRIFT struct " \o ToJson(ObsStruct(o.out.structs[i])) \o " differs from Output.tla " \o ToJson(OUT!ExpectedStruct(S, es[i].name, opts))) : i \in DOMAIN es }
+             ELSE {})
+       \cup Chk(Len(o.out.groups) = Len(order), "DRIFT number of bind groups")
+       \cup (IF Len(o.out.groups) = Len(order) THEN
+               UNION { Chk(ObsGroup(o.out.groups[i]) = OUT!ExpectedGroup(S, order[i]) /\ BufferDefaultsOk(o.out.groups[i]),
+                           "DRIFT bind group " \o ToJson(ObsGroup(o.out.groups[i])) \o " differs from Output.tla " \o ToJson(OUT!ExpectedGroup(S, order[i]))) : i \in DOMAIN order }
+             ELSE {})
+       \cup UNION { LET e == EN!EntriesOf(S, "vertex")[i]
+                        k == "fn " \o e.name \o "_entry"
+                    IN IF ~Has(o.out.fns, k) THEN { "DRIFT vertex entry helper of " \o e.name \o " missing" }
+                       ELSE Chk([ j \in DOMAIN o.out.fns[k].params |-> o.out.fns[k].params[j].name ] = OUT!VertexEntryParams(S, e),
+                                "DRIFT parameters of " \o k \o ": " \o ToJson([ j \in DOMAIN o.out.fns[k].params |-> o.out.fns[k].params[j].name ]) \o " expected " \o ToJson(OUT!VertexEntryParams(S, e)))
+                    : i \in DOMAIN EN!EntriesOf(S, "vertex") } ]
+
 (* ------------------------------------------------------------------ dispatch *)
 Judge0(c, o) ==
   CASE Enforce = "C11" -> C11(c, o)
@@ -643,6 +686,7 @@ Judge0(c, o) ==
     [] Enforce = "C10" -> C10(c, o)
     [] Enforce = "C02" -> C02(c, o)
     [] Enforce = "CONF" -> CONF(c, o)
+    [] Enforce = "OUT" -> WholeOut(c, o)
     [] Enforce = "C04" -> C04(c, o)
     [] Enforce = "C14" -> C14(c, o)
     [] Enforce = "C07" -> C07(c, o)
